@@ -681,6 +681,10 @@ pub fn call<'a>(it: &mut Interp<'a>, name: &'static str, pos: Vec<Th<'a>>, named
 				Some(f) => Some(want_fn(&f, "keyF")?),
 				None => None,
 			};
+			// the definitions return arrays of length <= 1 untouched (no element is forced)
+			if a.len() <= 1 {
+				return Ok(Val::Arr(a));
+			}
 			let mut items = force_all(it, &a)?;
 			if name != "uniq" {
 				items = sort_by_key(it, items, &keyf)?;
